@@ -178,7 +178,7 @@ Qed.
 
 Lemma collect_post : forall d idx defined gens D G,
   collect d idx defined gens = (D, G) ->
-  (forall n, mem n D = mem n defined || existsb (fun r => name_eqb (rid r) n) d) /\
+  (forall n, mem n D = mem n defined || existsb (fun r => N.eqb (rsock r) 0 && name_eqb (rid r) n) d) /\
   (forall k, gens_get G k =
      match (if idx <=? k then nth_error d (k - idx) else None) with
      | Some r => match rparams r with [] => gens_get gens k | _ :: _ => Some (rparams r) end
@@ -190,8 +190,9 @@ Proof.
     + intros n. simpl. rewrite orb_false_r. reflexivity.
     + intros k. destruct (idx <=? k); [destruct (k - idx) |]; reflexivity.
   - apply IH in H. destruct H as [H1 H2]. split.
-    + intros n. rewrite H1. simpl. rewrite (name_eqb_sym n (rid r)).
-      destruct (name_eqb (rid r) n), (mem n defined); reflexivity.
+    + intros n. rewrite H1. simpl. destruct (N.eqb (rsock r) 0); simpl.
+      * rewrite (name_eqb_sym n (rid r)). destruct (name_eqb (rid r) n), (mem n defined); reflexivity.
+      * reflexivity.
     + intros k. rewrite H2. clear H1 H2 IH.
       destruct (Nat.leb_spec (S idx) k) as [L | L].
       * replace (idx <=? k) with true by (symmetry; apply Nat.leb_le; lia).
@@ -211,7 +212,7 @@ Qed.
 (* what check_reference decides, in terms of the document *)
 Definition codeb (d : doc) (r : rule) (x : ref) : bool :=
   negb (xsock x) && negb (starts_dollar (xid x)) &&
-  negb (existsb (fun r' => name_eqb (rid r') (xid x)) d) &&
+  negb (existsb (fun r' => N.eqb (rsock r') 0 && name_eqb (rid r') (xid x)) d) &&
   negb (mem (xid x) gen_prelude) && negb (mem (xid x) (rparams r)).
 
 Lemma check_reference_codeb : forall d D G, collect d 0 [] [] = (D, G) ->
@@ -223,7 +224,7 @@ Proof.
   change (0 <=? i) with true. cbv iota. rewrite Nat.sub_0_r, Hr.
   change (mem (xid x) []) with false. change (gens_get [] i) with (@None hset).
   set (P := mem (xid x) gen_prelude). clearbody P.
-  set (A := existsb (fun r0 => name_eqb (rid r0) (xid x)) d). clearbody A.
+  set (A := existsb (fun r0 => N.eqb (rsock r0) 0 && name_eqb (rid r0) (xid x)) d). clearbody A.
   set (S := starts_dollar (xid x)). clearbody S.
   destruct (rparams r) as [|p ps].
   - change (mem (xid x) []) with false. destruct (xsock x), A, P, S; reflexivity.
@@ -274,13 +275,6 @@ Proof.
     + intros H. split; [apply H; left; reflexivity | intros y Hy; apply H; right; exact Hy].
 Qed.
 
-Lemma defined_id_iff : forall d n, existsb (fun r => name_eqb (rid r) n) d = true <-> DefinedByRuleId d n.
-Proof.
-  intros d n. rewrite existsb_exists. unfold DefinedByRuleId. split.
-  - intros [r [Hr E]]. apply name_eqb_eq in E. exists r. auto.
-  - intros [r [Hr E]]. exists r. split; [exact Hr | apply name_eqb_eq; exact E].
-Qed.
-
 Lemma defined_rule_iff : forall d n,
   existsb (fun r => N.eqb (rsock r) 0 && name_eqb (rid r) n) d = true <-> DefinedByRule d n.
 Proof.
@@ -294,16 +288,6 @@ Qed.
 Lemma negb_true_not : forall b (P : Prop), (b = true <-> P) -> (negb b = true <-> ~ P).
 Proof. intros [|] P H; simpl; split; intros; try discriminate; try tauto. intros HP. apply H in HP. discriminate. Qed.
 
-Lemma codeb_iff : forall d r x, codeb d r x = true <-> UnresolvedC d r x.
-Proof.
-  intros d r x. unfold codeb, UnresolvedC. rewrite !andb_true_iff.
-  rewrite (negb_true_not _ _ (defined_id_iff d (xid x))).
-  rewrite mem_prelude.
-  rewrite (negb_true_not _ _ (mem_In (xid x) rfc_prelude)).
-  rewrite (negb_true_not _ _ (mem_In (xid x) (rparams r))).
-  rewrite not_socket_iff, !negb_true_iff. tauto.
-Qed.
-
 Lemma unresolvedb_iff : forall d r x, unresolvedb d r x = true <-> Unresolved d r x.
 Proof.
   intros d r x. unfold unresolvedb, Unresolved. rewrite !andb_true_iff.
@@ -316,19 +300,15 @@ Qed.
 (* ------------------------------------------------------------------------- *)
 (* theorems about the walker *)
 
-(* exact characterisation of what the code decides *)
-Theorem refcheck_code_spec : forall d i j n,
-  refcheck d = Some (i, j, n) <-> FirstUnresolvedC d i j n.
-Proof.
-  intros d i j n. rewrite refcheck_eq.
-  exact (first_rules_spec (codeb d) (UnresolvedC d) d (codeb_iff d) i j n).
-Qed.
+(* the predicate the code decides is the specification's (only the prelude table differs in
+   name: generated vs hand-written, equal as sets by prelude_table_ok) *)
+Lemma codeb_unresolvedb : forall d r x, codeb d r x = unresolvedb d r x.
+Proof. intros d r x. unfold codeb. rewrite mem_prelude. reflexivity. Qed.
 
-Theorem refcheck_code_none : forall d,
-  refcheck d = None <-> forall i j, ~ UnresolvedAtC d i j.
+Theorem refcheck_eq_spec : forall d, refcheck d = spec_refcheck d.
 Proof.
-  intros d. rewrite refcheck_eq.
-  exact (first_rules_none (codeb d) (UnresolvedC d) d (codeb_iff d)).
+  intros d. rewrite refcheck_eq. unfold spec_refcheck.
+  apply first_rules_ext. intros r x _ _. apply codeb_unresolvedb.
 Qed.
 
 (* the executable specification is the specification *)
@@ -345,109 +325,22 @@ Proof.
   intros d. exact (first_rules_none (unresolvedb d) (Unresolved d) d (unresolvedb_iff d)).
 Qed.
 
-(* outside the classified class the code decides exactly the specification *)
-Lemma defined_split : forall d n,
-  existsb (fun r => name_eqb (rid r) n) d =
-  existsb (fun r => N.eqb (rsock r) 0 && name_eqb (rid r) n) d ||
-  existsb (fun r => negb (N.eqb (rsock r) 0) && name_eqb (rid r) n) d.
-Proof.
-  intros d n. induction d as [|r rest IH]; simpl; [reflexivity |]. rewrite IH.
-  destruct (N.eqb (rsock r) 0), (name_eqb (rid r) n); simpl;
-    destruct (existsb (fun r0 => N.eqb (rsock r0) 0 && name_eqb (rid r0) n) rest); reflexivity.
-Qed.
+(* the walker reports exactly the first unresolved reference in source order *)
+Theorem refcheck_spec : forall d i j n,
+  refcheck d = Some (i, j, n) <-> FirstUnresolved d i j n.
+Proof. intros d i j n. rewrite refcheck_eq_spec. apply spec_refcheck_spec. Qed.
 
-Lemma kf_false_agree : forall d, kf_socket_shadow d = false ->
-  forall r x, In r d -> In x (rrefs r) -> codeb d r x = unresolvedb d r x.
-Proof.
-  intros d H r x Hr Hx. unfold kf_socket_shadow in H.
-  rewrite existsb_false in H. specialize (H r Hr). rewrite existsb_false in H. specialize (H x Hx).
-  unfold kf_socket_shadow_ref, socket_only in H. unfold codeb, unresolvedb.
-  rewrite mem_prelude, defined_split.
-  destruct (xsock x), (starts_dollar (xid x)),
-    (existsb (fun r0 => N.eqb (rsock r0) 0 && name_eqb (rid r0) (xid x)) d),
-    (existsb (fun r0 => negb (N.eqb (rsock r0) 0) && name_eqb (rid r0) (xid x)) d),
-    (mem (xid x) rfc_prelude), (mem (xid x) (rparams r)); simpl in *; congruence.
-Qed.
+Theorem refcheck_none_iff : forall d,
+  refcheck d = None <-> forall i j, ~ UnresolvedAt d i j.
+Proof. intros d. rewrite refcheck_eq_spec. apply spec_refcheck_none. Qed.
 
-Theorem refcheck_eq_spec_partial : forall d, kf_socket_shadow d = false -> refcheck d = spec_refcheck d.
-Proof.
-  intros d H. rewrite refcheck_eq. unfold spec_refcheck.
-  apply first_rules_ext. exact (kf_false_agree d H).
-Qed.
-
-(* FULL STATEMENT (false of the faithful model, see refcheck_spec_refuted):
-     forall d i j n, refcheck d = Some (i, j, n) <-> FirstUnresolved d i j n.           *)
-Theorem refcheck_spec_partial : forall d i j n, kf_socket_shadow d = false ->
-  (refcheck d = Some (i, j, n) <-> FirstUnresolved d i j n).
-Proof.
-  intros d i j n H. rewrite (refcheck_eq_spec_partial d H). apply spec_refcheck_spec.
-Qed.
-
-(* FULL STATEMENT (false): forall d, refcheck d = None <-> forall i j, ~ UnresolvedAt d i j. *)
-Theorem refcheck_none_iff_partial : forall d, kf_socket_shadow d = false ->
-  (refcheck d = None <-> forall i j, ~ UnresolvedAt d i j).
-Proof.
-  intros d H. rewrite (refcheck_eq_spec_partial d H). apply spec_refcheck_none.
-Qed.
-
-(* witness: "$a = int" "b = a" - the reference a is unresolved, the walker accepts *)
-Definition refuted_doc : doc :=
+(* regression witness of the repaired finding: "$a = int" "b = a" is rejected at (1, 0) *)
+Definition socket_head_doc : doc :=
   [ mkRule 1 [97%N] true [] [mkRef false [105%N; 110%N; 116%N]];
     mkRule 0 [98%N] true [] [mkRef false [97%N]] ].
 
-Theorem refcheck_spec_refuted : exists d i j n, FirstUnresolved d i j n /\ refcheck d = None.
-Proof.
-  exists refuted_doc, 1, 0, [97%N]. split.
-  - apply spec_refcheck_spec. vm_compute. reflexivity.
-  - vm_compute. reflexivity.
-Qed.
-
-(* one direction holds unconditionally: the walker never rejects a document whose references
-   all resolve, and what it reports is an unresolved reference *)
-Lemma UnresolvedC_Unresolved : forall d r x, UnresolvedC d r x -> Unresolved d r x.
-Proof.
-  intros d r x [H1 [H2 [H3 H4]]]. repeat split; try assumption.
-  intros [r' [Hr [_ E]]]. apply H2. exists r'. auto.
-Qed.
-
-Theorem refcheck_sound : forall d i j n,
-  refcheck d = Some (i, j, n) ->
-  exists r x, ref_at d i j r x /\ Unresolved d r x /\ n = xid x.
-Proof.
-  intros d i j n H. apply refcheck_code_spec in H. destruct H as [[r [x [Hat [HU En]]]] _].
-  exists r, x. split; [exact Hat |]. split; [apply UnresolvedC_Unresolved; exact HU | exact En].
-Qed.
-
-(* the classified class is exactly "a reference resolved only by a socket-prefixed rule head" *)
-Theorem kf_socket_shadow_iff : forall d,
-  kf_socket_shadow d = true <->
-  exists r x, In r d /\ In x (rrefs r) /\ Unresolved d r x /\ ~ UnresolvedC d r x.
-Proof.
-  intros d. unfold kf_socket_shadow. rewrite existsb_exists. split.
-  - intros [r [Hr H]]. rewrite existsb_exists in H. destruct H as [x [Hx H]].
-    exists r, x. split; [exact Hr |]. split; [exact Hx |].
-    assert (HH : unresolvedb d r x = true /\ codeb d r x = false).
-    { unfold kf_socket_shadow_ref, socket_only in H.
-      unfold codeb. rewrite mem_prelude, defined_split. unfold unresolvedb.
-      destruct (xsock x), (starts_dollar (xid x)),
-        (existsb (fun r0 => N.eqb (rsock r0) 0 && name_eqb (rid r0) (xid x)) d),
-        (existsb (fun r0 => negb (N.eqb (rsock r0) 0) && name_eqb (rid r0) (xid x)) d),
-        (mem (xid x) rfc_prelude), (mem (xid x) (rparams r)); simpl in *; split; congruence. }
-    destruct HH as [HU HC]. split; [apply unresolvedb_iff; exact HU |].
-    intros C. apply codeb_iff in C. congruence.
-  - intros [r [x [Hr [Hx [HU HC]]]]]. exists r. split; [exact Hr |].
-    rewrite existsb_exists. exists x. split; [exact Hx |].
-    apply unresolvedb_iff in HU.
-    assert (HC' : codeb d r x = false).
-    { destruct (codeb d r x) eqn:C; [| reflexivity]. exfalso. apply HC. apply codeb_iff. exact C. }
-    clear HC. rename HC' into HC.
-    unfold kf_socket_shadow_ref, socket_only. unfold unresolvedb in HU. unfold codeb in HC.
-    rewrite mem_prelude, defined_split in HC.
-    destruct (xsock x), (starts_dollar (xid x)),
-      (existsb (fun r0 => N.eqb (rsock r0) 0 && name_eqb (rid r0) (xid x)) d),
-      (existsb (fun r0 => negb (N.eqb (rsock r0) 0) && name_eqb (rid r0) (xid x)) d),
-      (mem (xid x) rfc_prelude), (mem (xid x) (rparams r)); simpl in *; congruence.
-Qed.
+Lemma socket_head_rejected : refcheck socket_head_doc = Some (1, 0, [97%N]).
+Proof. vm_compute. reflexivity. Qed.
 
 (* ------------------------------------------------------------------------- *)
 (* the two entry points *)
@@ -488,32 +381,17 @@ Proof.
   - split; [reflexivity | apply dup_error_none_no_dup; exact E].
 Qed.
 
-(* CDDL::from_slice, outside the classified class *)
-Theorem checked_parse_spec_partial : forall d, kf_socket_shadow d = false ->
+(* CDDL::from_slice: duplicates first, then the first unresolved reference; Ok iff neither *)
+Theorem checked_parse_spec : forall d,
   match checked_parse d with
   | VDup i n => dup_verdict d i n
   | VUndef i j n => no_dup d /\ FirstUnresolved d i j n
   | VOk k => k = length d /\ no_dup d /\ forall i j, ~ UnresolvedAt d i j
   end.
 Proof.
-  intros d H. unfold checked_parse, checked_with. destruct (dup_error (dup_view d)) as [[i n]|] eqn:E.
-  - apply dup_error_verdict. exact E.
-  - apply dup_error_none_no_dup in E. destruct (refcheck d) as [[[i j] n]|] eqn:R.
-    + split; [exact E |]. apply (refcheck_spec_partial d i j n H). exact R.
-    + split; [reflexivity |]. split; [exact E |]. apply (refcheck_none_iff_partial d H). exact R.
-Qed.
-
-(* and unconditionally, with the code's notion of "defined" *)
-Theorem checked_parse_code_spec : forall d,
-  match checked_parse d with
-  | VDup i n => dup_verdict d i n
-  | VUndef i j n => no_dup d /\ FirstUnresolvedC d i j n
-  | VOk k => k = length d /\ no_dup d /\ forall i j, ~ UnresolvedAtC d i j
-  end.
-Proof.
   intros d. unfold checked_parse, checked_with. destruct (dup_error (dup_view d)) as [[i n]|] eqn:E.
   - apply dup_error_verdict. exact E.
   - apply dup_error_none_no_dup in E. destruct (refcheck d) as [[[i j] n]|] eqn:R.
-    + split; [exact E |]. apply refcheck_code_spec. exact R.
-    + split; [reflexivity |]. split; [exact E |]. apply refcheck_code_none. exact R.
+    + split; [exact E |]. apply refcheck_spec. exact R.
+    + split; [reflexivity |]. split; [exact E |]. apply refcheck_none_iff. exact R.
 Qed.
